@@ -434,6 +434,41 @@ func extractC18Round2(c *Ctx, kf, mf, af *ast.File, create, activate, sale *ast.
 			recovers = true
 		}
 	}
+	// governance replaces the whole table of sale contracts: delete every entry, save the new ones
+	skf, err := c.Parse("x/skyway/keeper/keeper.go")
+	if err != nil {
+		return err
+	}
+	setAll := FindFunc(skf, "Keeper", "SetAllLighNodeSaleContracts")
+	if setAll == nil {
+		return fmt.Errorf("SetAllLighNodeSaleContracts not found")
+	}
+	wipe := ""
+	for _, it := range Calls(setAll.Body, "IterAllFnc") {
+		for _, a := range it.Args {
+			if fl, ok := a.(*ast.FuncLit); ok {
+				wipe = strings.Join(strings.Fields(c.Src(fl.Body)), " ")
+			}
+		}
+	}
+	c.P("(* x/skyway/keeper/keeper.go: SetAllLighNodeSaleContracts *)")
+	c.P("Definition set_contracts_calls : list string := %s.", CoqStrList(callSeq(setAll, "IterAllFnc", "Delete", "Save")))
+	c.P("Definition set_contracts_wipe_callback : string := %s.", CoqStr(wipe))
+	iterf, err := c.Parse("util/keeper/iter.go")
+	if err == nil {
+		// IterAllFnc stops when the callback returns false
+		if f := FindFunc(iterf, "", "IterAllFnc"); f != nil {
+			stop := ""
+			ast.Inspect(f.Body, func(n ast.Node) bool {
+				is, ok := n.(*ast.IfStmt)
+				if ok && strings.Contains(c.Src(is.Cond), "fnc(") {
+					stop = strings.Join(strings.Fields(c.Src(is)), " ")
+				}
+				return true
+			})
+			c.P("Definition iter_all_fnc_stop_test : string := %s.", CoqStr(stop))
+		}
+	}
 	c.P("(* x/skyway/abci.go *)")
 	c.P("Definition endblocker_defers_recover : bool := %v.", recovers)
 	c.P("Definition endblocker_calls : list string := %s.", CoqStrList(callSeq(eb, "createBatch", "attestationTally", "pruneAttestations", "CacheContext")))
